@@ -243,12 +243,17 @@ pub fn run(run: &Run) {
                     4 => if j % 4 == 2 || j + 1 == c { 0.0 } else { d[k] },
                     5 => if j == (i * 5) % c { 1.0 } else { 0.0 },
                     6 => if k % 16 == 3 { -d[k] } else { 0.0 },
+                    8 => {
+                        // the flat data, read as s x s with s^2 = r*c, is a symmetric matrix
+                        let s = ((r * c) as f64).sqrt().round() as usize;
+                        if s * s == r * c { let (a, b) = (k / s, k % s); (1 + a.min(b) * 3 + a.max(b) % 7) as f64 } else { d[k] }
+                    }
                     _ => 0.0,
                 }
             })
             .collect()
     };
-    const PATS: [&str; 8] = ["dense", "every-9th", "banded", "zero-rows", "zero-columns", "indicator", "negative-every-16th", "all-zero"];
+    const PATS: [&str; 9] = ["dense", "every-9th", "banded", "zero-rows", "zero-columns", "indicator", "negative-every-16th", "all-zero", "flat-symmetric"];
     let mids = [3usize, 8, 16, 17, 24, 33, 40];
     let mut pjobs: Vec<(usize, usize, usize, bool)> = Vec::new();
     for &m in &mids {
@@ -258,6 +263,10 @@ pub fn run(run: &Run) {
             }
         }
     }
+    // stored shapes whose element count is a perfect square although they are not square (8x32, 4x64, 9x36, 16x25, 2x128)
+    for &(m, l, n) in &[(32usize, 8usize, 32usize), (8, 32, 8), (4, 64, 16), (64, 4, 9), (36, 9, 36), (9, 36, 4), (25, 16, 25), (16, 25, 16), (2, 128, 2), (128, 2, 128)] {
+        pjobs.push((m, l, n, false));
+    }
     // products of at least 2^22 multiply-adds
     let large: Vec<(usize, usize, usize)> = if run.thorough() { vec![(168, 150, 170), (170, 150, 168), (256, 128, 129), (130, 260, 131), (4100, 33, 32), (33, 4100, 40), (320, 320, 320)] } else { vec![(168, 150, 170), (170, 150, 168), (256, 128, 129), (130, 260, 131)] };
     for &(m, l, n) in &large {
@@ -266,8 +275,8 @@ pub fn run(run: &Run) {
     run.bound("value patterns", format!("{} operand patterns for A × 4 (2 for the large shapes) for B × 4 flags on {}^3 mid-size shapes and {:?}", PATS.len(), mids.len(), large));
     let mut pcases: Vec<(usize, usize, usize, usize, usize)> = Vec::new();
     for &(m, l, n, big) in &pjobs {
-        for pa in 0..8usize {
-            for &pb in if big { &[0usize, 1][..] } else { &[0usize, 1, 3, 4][..] } {
+        for pa in 0..9usize {
+            for &pb in if big { &[0usize, 1][..] } else { &[0usize, 1, 3, 4, 8][..] } {
                 pcases.push((m, l, n, pa, pb));
             }
         }
